@@ -4482,7 +4482,17 @@ class ParameterizedMetaclass(type):
                 parameter.owner = mcs
                 type.__setattr__(mcs,attribute_name,parameter)
                 _clear_params_cache(mcs)
-            mcs.__dict__[attribute_name].__set__(None,value)
+                try:
+                    parameter.__set__(None,value)
+                except BaseException:
+                    if parameter.default is not value:
+                        # The value was rejected: do not leave the copy behind,
+                        # the class still inherits the Parameter of its parent
+                        type.__delattr__(mcs,attribute_name)
+                        _clear_params_cache(mcs)
+                    raise
+            else:
+                mcs.__dict__[attribute_name].__set__(None,value)
 
         else:
             type.__setattr__(mcs,attribute_name,value)
